@@ -4,4 +4,5 @@ From AIT Require Import Base.Vio C15.Model C15.Spec.
 From AIT Require C14.Model2D C14.ModelDDN.
 Extraction "model.ml" vio_kit flp_system flp_rows flp_order flp_system_r flp_order_r nweights flat_err flat_maxerr first_violated feasibleb wl
   all_assign psize pidx entry mlp_system mlp_system_orig mlp_order
-  C14.Model2D.plusEqualFM C14.Model2D.scaleW2D C14.Model2D.getValue2D.
+  C14.Model2D.plusEqualFM C14.Model2D.scaleW2D C14.Model2D.getValue2D
+  C14.ModelDDN.getTransitionProbability C14.ModelDDN.graph_new C14.ModelDDN.graph_push.
